@@ -13,7 +13,7 @@ from sim.core import H, Violation, digest
 ID = "C14"
 LEVEL = "exploration"
 BATCH = 40
-QUICK_WORLDS = 1600
+QUICK_WORLDS = 4800
 THOROUGH_BUDGET_S = 600
 RUN_TIMEOUT = 60
 RULE = ("world = (walk model class, digraph with nested/touching cycles and self-loops, k layers) from the seed; the stub solver delivers, "
